@@ -16,8 +16,8 @@ EXPLANATION = (
     "goes through From<Vec<i32>>. R14.5 = R07.2 (single bincode configuration). R14.6 witness: deserialising outside `unsafe` "
     "does not compile (E0133)."
 )
-THOROUGH_CONFIGS = [C.NO_CHARWISE, C.NO_CACHE, C.NO_FIX, C.NO_TAG, C.SIMD]
-QUICK_CONFIGS = [C.NO_FIX]
+THOROUGH_CONFIGS = [C.NO_CHARWISE, C.NO_CACHE, C.NO_FIX, C.NO_TAG, C.MINIMAL, C.SIMD]
+QUICK_CONFIGS = [C.NO_FIX, C.NO_CHARWISE, C.NO_CACHE, C.NO_TAG, C.MINIMAL]
 NOT_DECIDED = ["behavioural equality of the deserialised predictor (values)", "daachorse's serialize/deserialize_unchecked contract"]
 
 PAIRS = [
@@ -131,7 +131,7 @@ def pairs(chk, w):
         def seqs(it, b, outs, side):
             full, loop = set(), set()
             for o in outs:
-                if o.kind == "return" and effects.ret_class(o.value_at((("L", 0),))) == "Ok":
+                if o.kind == "return" and effects.ret_class(o.value_at((("L", 0),))) in ("Ok", "any"):
                     full.add(tuple((ty, (source_field(it, o, ev[3][0]) if side == "enc" else None)) for _, ty, ev in wire_events(it, b, o, side)))
                 elif o.kind == "backedge":
                     # events of the last loop iteration only: after the last `next` call of the loop header
@@ -264,8 +264,8 @@ def rest(chk, w):
     bd, itd, od = C.run_fn(w, dec)
     okfrom = False
     for o in od:
-        if o.kind == "return" and effects.ret_class(o.value_at((("L", 0),))) == "Ok":
-            okfrom = any(e[0] == "call" and "WeightVector as core::convert::From<alloc::vec::Vec>>::from" in (e[2] or "") for e in o.trace)
+        if o.kind == "return" and effects.ret_class(o.value_at((("L", 0),))) in ("Ok", "any"):
+            okfrom = any(e[0] == "call" and re.search(r"WeightVector as core::convert::From<alloc::vec::Vec(<i32>)?>>::from$", e[2] or "") is not None for e in o.trace)
     chk.ob("R14.4", "decode-through-From<Vec<i32>>", okfrom, "WeightVector::decode does not build the value through From<Vec<i32>> (which zero-fills fixed vectors)", site=C.site(bd))
     # ---- R14.5 / R14.6
     with chk.only(rules={"R07.2"}, keys=lambda k: "model::Model" not in k):   # the model file is C07's business
@@ -370,6 +370,31 @@ def _trim_countdown(w, b, cf, it, h):
         rows.add((lencls, el, act))
     want = {("len==0", "-", "return-prefix(len)"), ("len>0", "!=0", "return-prefix(len)"), ("len>0", "==0", "continue-with-len-1")}
     return rows == want, rows
+
+
+def from_variable_identity(chk, w):
+    """in every configuration: whenever From<Vec<i32>> answers Variable, it holds the decoded vector itself (same elements, same
+    len(): the length of a tag bias vector sizes the tag score buffer, so dropping or adding entries changes behaviour).
+    Not a condition of C14 (a conversion that is idempotent still round-trips); run by C06 and, per configuration, by C13."""
+    fn, _ = C.impl_fn(w, "vaporetto::predictor::WeightVector", "core::convert::From", "from")
+    if fn is None:
+        chk.undecided("R14.4", "from:anchor", "From<Vec<i32>> for WeightVector not found")
+        return
+    b, it, outs = C.run_fn(w, fn)
+    chk.fn(fn)
+    pay = set()
+    n = 0
+    for o in outs:
+        if o.kind != "return":
+            continue
+        v = it.resolve(o, o.value_at((("L", 0),)))
+        if v[0] == "var" and v[2] == "Variable":
+            n += 1
+            x = it.resolve(o, v[3][0]) if v[3] else None
+            pay.add(forms.Normalizer(it, o).value_atom(x) if x is not None else "?")
+    has_fixed = any(v["name"] == "Fixed" for v in w.adt("vaporetto::predictor::WeightVector")["variants"])
+    chk.ob("R14.4", "from:Variable-holds-the-vector", pay == {"arg1"} and n >= 1,
+           "From<Vec<i32>> for WeightVector builds Variable(%s); expected Variable(src) with the decoded vector unchanged" % sorted(pay), site=C.site(b), sample={"payload": sorted(pay), "fixed_compiled": has_fixed})
 
 
 def from_table(chk, w):
